@@ -1513,7 +1513,11 @@ class ClientRequest(ClientRequestBase):
 
     def _should_write(self, protocol: BaseProtocol) -> bool:
         return (
-            self.body.size != 0 or self._continue is not None or protocol.writing_paused
+            self.body.size != 0
+            # the coding of an empty body is not empty: write_eof() finishes it
+            or bool(self.compress)
+            or self._continue is not None
+            or protocol.writing_paused
         )
 
     async def _write_bytes(
